@@ -387,6 +387,16 @@ func (ms *Modules) Process() []error {
 		errs = append(errs, ToEntry(m).GetErrors()...)
 	}
 
+	// Merging an augment moves the errors found in its body to the target
+	// and records name collisions there, so look at all trees again
+	// (errorSort removes the duplicates).
+	for _, m := range ms.Modules {
+		errs = append(errs, ToEntry(m).GetErrors()...)
+	}
+	for _, m := range ms.SubModules {
+		errs = append(errs, ToEntry(m).GetErrors()...)
+	}
+
 	// The deviation statement is only valid under a module or submodule,
 	// which allows us to avoid having to process it within ToEntry, and
 	// rather we can just walk all modules and submodules *after* entries
